@@ -161,6 +161,12 @@ def run(ctx):
         avoided["mixed_dtype"] = len(mixedt)
         mixedt = []
     cases += mixedt
+    # calls WITHOUT a start vector (default random probe, key given or not), every operator kind incl. Tridiagonal with negative / zero /
+    # complex couplings, Diagonal, Identity: compared with the model and the oracle on the independently reproduced probe
+    nostart = [L.gen_nostart(ctx.rng, present, nmax=min(nmax, 10)) for _ in range(ctx.budget(60, 300))]
+    if "lanczos_reltol_first_step" in present or "lanczos_alias_identity" in present:
+        nostart = [c for c in nostart if c["kind"] != "identity"]
+    cases += nostart
     # mixed batches: one element exhausts its Krylov space early, the others are generic (either order), max_iters < n.
     # Region of lanczos_batch_shared_stop: used whenever the probe says the flag is gone
     mixed = [L.gen_mixed_batch(ctx.rng, nmax=min(nmax, 10)) for _ in range(ctx.budget(40, 240))]
@@ -268,6 +274,13 @@ def run(ctx):
         bad = L.oracle_eigs(c, o)
         if bad:
             mism.append(dict(oracle_fail=True, case=c, got={k: o.get(k) for k in ("ok", "err", "k", "shapes", "eigs", "off", "diag")}, failed_clauses=bad))
+    # symmetrically graded operators D M D (dynamic range up to 1e8) through lanczos_eigs
+    graded = [L.gen_graded(ctx.rng) for _ in range(ctx.budget(30, 150))]
+    for c in graded:
+        o = L.run_impl(c)
+        bad = L.oracle_graded(c, o)
+        if bad:
+            mism.append(dict(oracle_fail=True, case=c, got={k: o.get(k) for k in ("ok", "err", "k", "eigs", "off", "diag")}, failed_clauses=bad))
     for c in gone_region + big:
         o = L.run_impl(c)
         bad = L.oracle(c, o, check_span=c["n"] <= 64)
@@ -288,7 +301,7 @@ def run(ctx):
             m = min(c["max_iters"], c["n"])
             eh["early" if o["k"] < m else "cap"] = eh.get("early" if o["k"] < m else "cap", 0) + 1
     return dict(
-        evaluations=len(cases) + len(gone_region) + len(big) + len(mixed) + len(exact) + len(weak), distinct_nontrivial=distinct,
+        evaluations=len(cases) + len(gone_region) + len(big) + len(mixed) + len(exact) + len(weak) + len(graded), distinct_nontrivial=distinct,
         rule="Hermitian operators n<=%d (dense/PSD/Sum/Product/Diagonal/ScalarMul/Kronecker/Tridiagonal/matmat-defined; real and complex; gaussian, definite, indefinite, "
              "repeated and clustered spectra), starts random/few eigenvectors/exact eigenvectors/scaled, 1-D and batched, max_iters 1..n+3, ten tolerances; "
              "non-trivial = n>=3 and >=2 columns returned; distinct by hash of (operator data, start, max_iters, tol)" % nmax,
@@ -298,7 +311,7 @@ def run(ctx):
         extra=dict(compared_in_coq=len(idx) + alias_wit, model_stopping_test=("repaired" if rfix else "pinned"), alias_witness_compared=alias_wit, max_model_impl_difference=maxdiff, tolerance=1e-9, near_tie=hist.get(1, 0), noise_amplified_skipped=hist.get(2, 0), agree=hist.get(0, 0),
                    kind_histogram=kh, start_histogram=sh, max_iters_vs_n=mh, exit_histogram=eh,
                    complex_cases=sum(1 for c in cases if c["cplx"]), batched_cases=sum(1 for c in cases if c["batch"]),
-                   avoided_regions=avoided, weak_coupling_eigs_cases=len(weak), exact_stream_cases=len(exact), exact_stream_tol0=sum(1 for c in exact if c['tol'] == 0.0), mixed_batches_used=len(mixed), batch_elements_vs_single_start=elem_compared, defect_free_region_cases=len(gone_region), large_oracle_only=len(big),
+                   avoided_regions=avoided, weak_coupling_eigs_cases=len(weak), graded_eigs_cases=len(graded), no_start_vector_cases=len(nostart), exact_stream_cases=len(exact), exact_stream_tol0=sum(1 for c in exact if c['tol'] == 0.0), mixed_batches_used=len(mixed), batch_elements_vs_single_start=elem_compared, defect_free_region_cases=len(gone_region), large_oracle_only=len(big),
                    impl_exceptions=sum(1 for o in obs if not o.get("ok"))))
 
 
